@@ -152,6 +152,48 @@ def crafted_forall_accumulation():
     return out
 
 
+def crafted_forall_assignment():
+    """a quantified ASSIGNMENT whose instances all reach the same ground fluent with values read from the state (flag := p(v) for every v; n := w(v) for
+    every v): Boolean instances follow add-after-delete, differing numeric values are a conflict -- in both validators alike"""
+    from unified_planning.shortcuts import Problem, Fluent, InstantaneousAction, UserType, Object, Variable, IntType, BoolType, Not, Equals
+    out = []
+    for vals in ((True, False), (False, True), (False, False), (True, True)):
+        for goal_true in (True, False):
+            T_ = UserType("T4b")
+            pr = Problem(f"forall_assignment_bool_{vals}_{goal_true}")
+            o1, o2 = Object("o1", T_), Object("o2", T_)
+            pr.add_objects([o1, o2])
+            p_, flag = Fluent("p", BoolType(), x=T_), Fluent("flag", BoolType())
+            pr.add_fluent(p_, default_initial_value=False)
+            pr.add_fluent(flag, default_initial_value=False)
+            pr.set_initial_value(p_(o1), vals[0])
+            pr.set_initial_value(p_(o2), vals[1])
+            v = Variable("v", T_)
+            a = InstantaneousAction("copyall")
+            a.add_effect(flag, p_(v), forall=[v])
+            pr.add_action(a)
+            pr.add_goal(flag if goal_true else Not(flag))
+            out.append((9500000 + len(out), pr))
+    for ws in ((1, 2), (2, 1), (2, 2)):
+        for goalv in (1, 2):
+            T_ = UserType("T4c")
+            pr = Problem(f"forall_assignment_int_{ws}_{goalv}")
+            o1, o2 = Object("o1", T_), Object("o2", T_)
+            pr.add_objects([o1, o2])
+            w, n = Fluent("w", IntType(0, 5), x=T_), Fluent("n", IntType(0, 5))
+            pr.add_fluent(w, default_initial_value=0)
+            pr.add_fluent(n, default_initial_value=0)
+            pr.set_initial_value(w(o1), ws[0])
+            pr.set_initial_value(w(o2), ws[1])
+            v = Variable("v", T_)
+            a = InstantaneousAction("copyall")
+            a.add_effect(n, w(v), forall=[v])
+            pr.add_action(a)
+            pr.add_goal(Equals(n, goalv))
+            out.append((9500000 + len(out), pr))
+    return out
+
+
 def crafted_guarded_division():
     """an effect value that divides by a fluent, next to a precondition of the same action that excludes the value zero; the divisor is zero
     initially and another action makes it positive"""
@@ -179,7 +221,7 @@ def bounded(tier, seed):
     from unified_planning.plans import SequentialPlan, TimeTriggeredPlan, ActionInstance
     nprob, maxlen, cap, nsched = (50, 2, 40, 2) if tier == "quick" else (400, 3, 100, 3)
     failures, evals, nontrivial, samples = [], 0, set(), []
-    for s, pr in itertools.chain(crafted_half_bounded(), crafted_permuted_parameters(), crafted_forall_accumulation(), crafted_guarded_division(), SC.problems(seed + 29, nprob, features={"max_actions": 2})):
+    for s, pr in itertools.chain(crafted_half_bounded(), crafted_permuted_parameters(), crafted_forall_accumulation(), crafted_forall_assignment(), crafted_guarded_division(), SC.problems(seed + 29, nprob, features={"max_actions": 2})):
         if not SequentialPlanValidator.supports(pr.kind) or not TimeTriggeredPlanValidator.supports(pr.kind):
             continue
         gas = seqsem.ground_actions(pr)
@@ -209,9 +251,10 @@ def bounded(tier, seed):
                             rt = tv.validate(pr, TimeTriggeredPlan([(times[i], ActionInstance(plan[i][0], tuple(plan[i][1])), None) for i in range(len(plan))]))
                         except ZeroDivisionError as e2:
                             # the sequential validator reached a verdict on this plan; the time-triggered one could not even evaluate it
-                            failures.append({"what": f"seed {s}: sequential says {rs.status.name}, time-triggered raised ZeroDivisionError "
-                                                     f"[{'effect-value-undefined-where-a-condition-of-the-same-action-is-false' if rs.status != ValidationResultStatus.VALID else signature(pr, plan)}]",
-                                             "concrete": desc, "observed": repr(e2)})
+                            what = (f"seed {s}: sequential says {rs.status.name}, time-triggered raised ZeroDivisionError "
+                                    f"[{'effect-value-undefined-where-a-condition-of-the-same-action-is-false' if rs.status != ValidationResultStatus.VALID else signature(pr, plan)}]")
+                            if what not in {f_["what"] for f_ in failures}:      # one report per problem and tag: the cap below is for distinct failures
+                                failures.append({"what": what, "concrete": desc, "observed": repr(e2)})
                             break
                     except Exception as e:  # noqa
                         failures.append({"what": f"seed {s}: a validator raised {type(e).__name__}: {e} [{signature(pr, plan)}]",
